@@ -158,9 +158,12 @@ def gen_pair(r, cls: str) -> Tuple[tuple, tuple]:
 CLASSES = ["identical", "nested", "partial", "partial", "near_touch", "disjoint", "sliver", "huge", "far", "z_disjoint"]
 
 
-def mk(b: tuple, frame: str, ego: Tuple[Tuple[float, float, float], float], negate: bool = False) -> Any:
-    o = O.obj3d(*b, negate_q=negate)
+def mk(b: tuple, frame: str, ego: Tuple[Tuple[float, float, float], float], negate: bool = False, lab: str = "car") -> Any:
+    o = O.obj3d(*b, negate_q=negate, lab=lab)
     return O.to_map(o, ego[0], ego[1]) if frame == "map" else o
+
+
+PAIR_LABELS = [("car", "car"), ("car", "car"), ("pedestrian", "pedestrian"), ("unknown", "car"), ("car", "unknown"), ("unknown", "unknown"), ("bus", "truck"), ("bicycle", "motorbike"), ("car", "false_positive")]
 
 
 def rigid(b: tuple, theta: float, t: Tuple[float, float, float]) -> tuple:
@@ -177,7 +180,9 @@ def box_pairs(ctx: Ctx, n: int) -> None:
         ego = ((r.uniform(-1e4, 1e4), r.uniform(-1e4, 1e4), r.uniform(-3, 3)), O.rand_yaw(r)) if r.random() < 0.5 else ((r.uniform(-30, 30), r.uniform(-30, 30), 0.0), O.rand_yaw(r))
         tr = O.transforms_for(*ego) if frame == "map" else None
         ctx.begin_case("boxes", idx, cls=cls, frame=frame, a=a, b=b, ego=ego)
-        e, g = mk(a, frame, ego, negate=r.random() < 0.3), mk(b, frame, ego, negate=r.random() < 0.3)
+        # the scores are geometry: whatever the two objects are labelled (the pair of labels rotates with the case index)
+        le, lg = PAIR_LABELS[(idx // len(CLASSES)) % len(PAIR_LABELS)]
+        e, g = mk(a, frame, ego, negate=r.random() < 0.3, lab=le), mk(b, frame, ego, negate=r.random() < 0.3, lab=lg)
         ua = Unaffected(ctx)
         v = values(e, g, tr)
         # symmetry (distance, IoU)
